@@ -269,6 +269,26 @@ class CondSpace:
             while parent.get(x, x) != x:
                 x = parent[x]
             return x
+        # isinstance(x, T) against the region of type(x), for the container types T nobody subclasses in this package's inputs (list, tuple,
+        # dict, set): an instance of T has exactly type T.  (str, float and int are different: numpy.str_, numpy.float64 and bool are
+        # subclasses that do arrive as arguments - those valuations stay.)
+        for k, v in val.items():
+            if k[0] in ("subj", "pair") or not isinstance(v, bool):
+                continue
+            a = strip(k[1])
+            if not (head(a) == "call" and strip(a[1]) == ("glob", "builtins.isinstance") and len(a[2]) == 2):
+                continue
+            T = strip(a[2][1])
+            if T not in (("glob", "builtins.list"), ("glob", "builtins.tuple"), ("glob", "builtins.dict"), ("glob", "builtins.set")):
+                continue
+            ty = ("call", ("glob", "builtins.type"), (a[2][0],), ())
+            for k2, reg in val.items():
+                if k2[0] == "subj" and strip_all(k2[1]) == strip_all(ty) and reg[0] != "n":
+                    exact = reg[1] != _OTHER and (reg[1] == T or (isinstance(reg[1], tuple) and len(reg[1]) > 1 and reg[1][0] == "g" and ("glob", reg[1][1]) == T))
+                    if v and not exact:
+                        return False
+                    if not v and exact:
+                        return False
         pairs = [(k[1], v) for k, v in val.items() if k[0] == "pair"]
         if not pairs:
             return True
